@@ -10,6 +10,7 @@ import Driver.File
 import Driver.Ser
 import Driver.Http
 import Driver.Life
+import Driver.Pool
 /-! `driver <model>`: one op per stdin line, one canonical result line per op on stdout. -/
 
 structure Model where
@@ -25,6 +26,7 @@ def dispatch (model : String) : Option Model :=
   | "path" => some (pureModel Driver.Path.step)
   | "iov" => some ⟨Driver.Iov.St, {}, Driver.Iov.step⟩
   | "objcache" => some ⟨Driver.ObjCache.D, {}, Driver.ObjCache.step⟩
+  | "pool" => some ⟨Driver.Pool.D, {}, Driver.Pool.step⟩
   | "life" => some ⟨Driver.Life.D, {}, Driver.Life.step⟩
   | "http" => some ⟨Unit, (), Driver.Http.step⟩
   | "ser" => some ⟨Driver.Ser.St, {}, Driver.Ser.step⟩
